@@ -6,7 +6,11 @@ try:
 except ImportError:
     C06_kernel = None
 
-LEAN_MODULES = C06_ops.LEAN_MODULES + (C06_kernel.LEAN_MODULES if C06_kernel else [])
+import emitlock_part
+
+# C03lock: no operator emits while holding a lock its own teardown takes (regenerated EmitLocks table) — the premise of "an Unsubscribe
+# from inside a delivered callback returns" for the operators that own a lock
+LEAN_MODULES = C06_ops.LEAN_MODULES + emitlock_part.LEAN_MODULES + (C06_kernel.LEAN_MODULES if C06_kernel else [])
 
 MANIFEST = dict(
     text="Operator half, proved in Lean for every machine (chains are machines), raw script and k: Unsubscribe from inside the k-th delivered callback cuts delivery exactly there "
@@ -22,7 +26,8 @@ MANIFEST = dict(
 
 def check(ctx):
     o = C06_ops.parts(ctx)
-    rules, assumptions, searches, extra = [o['rule_part']], [], [o.get('search')], {}
+    el = emitlock_part.parts(ctx)
+    rules, assumptions, searches, extra = [o['rule_part'], el['rule_part']], [], [o.get('search'), el['search']], {}
     if C06_kernel:
         k = C06_kernel.parts(ctx)
         rules.append(k.get('rule', ''))
